@@ -830,6 +830,19 @@ func (se *specEnv) evalCall(n *ast.CallExpr) Val {
 				panic("spec: unknown name " + nm.Name)
 			}
 			return *found
+		case "isfunc": // isfunc(v, "pkg.Name"): the function value v is that function (decided on the SSA)
+			v := arg(0)
+			lit, ok := n.Args[1].(*ast.BasicLit)
+			if !ok {
+				panic("spec: isfunc needs a quoted function name")
+			}
+			want, _ := strconv.Unquote(lit.Value)
+			if v.clo != nil && v.clo.fn != nil {
+				got := v.clo.fn.String()
+				return boolVal(fmt.Sprint(got == want || strings.HasSuffix(got, "."+want) || strings.HasSuffix(got, "/"+want)))
+			}
+			// not a statically known function value: nothing can be concluded
+			return Val{term: e.declare("isfunc", "Bool"), typ: types.Typ[types.Bool]}
 		case "has": // has(m, k): key k is present in map m
 			m := arg(0)
 			mt, ok := m.typ.Underlying().(*types.Map)
